@@ -95,11 +95,18 @@ class Ctx(object):
         for p in glob.glob(os.path.join(SPEC, "*.tla")) + [os.path.join(SPEC, "proofs", module + ".tla")]:
             shutil.copy(p, d)
         t1 = time.time()
-        try:
-            out = subprocess.run(["tlapm", "--cleanfp", module + ".tla"], cwd=d, stdout=subprocess.PIPE, stderr=subprocess.STDOUT, timeout=timeout).stdout.decode("utf-8", "replace")
-        except subprocess.TimeoutExpired:
-            raise Machinery("tlapm timed out on %s" % module)
-        m = re.search(r"All (\d+) obligations? proved", out)
+        m = None
+        for attempt in range(3):
+            # the directory is fresh, so the fingerprints a later attempt re-uses were all produced by this run; a back-end
+            # time-out on a loaded machine is retried (only the obligations that are still open are sent again)
+            try:
+                out = subprocess.run(["tlapm"] + (["--cleanfp"] if attempt == 0 else []) + [module + ".tla"], cwd=d, stdout=subprocess.PIPE,
+                                     stderr=subprocess.STDOUT, timeout=timeout).stdout.decode("utf-8", "replace")
+            except subprocess.TimeoutExpired:
+                raise Machinery("tlapm timed out on %s" % module)
+            m = re.search(r"All (\d+) obligations? proved", out)
+            if m:
+                break
         if not m:
             raise Machinery("TLAPS proof %s not accepted: %s" % (module, out[-400:]))
         self.proofs.append({"module": module, "obligations_proved": int(m.group(1)), "wall_s": round(time.time() - t1, 2)})
